@@ -758,8 +758,14 @@ result_t SingleDataField::derive(const string& name, PartType partType, int divi
   if (values.empty()) {
     fields->push_back(new SingleDataField(useName, *attributes, dataType, partType, m_length));
   } else if (numeric) {
-    fields->push_back(new ValueListDataField(useName, *attributes, reinterpret_cast<const NumberDataType*>(dataType),
-      partType, m_length, values));
+    const NumberDataType* numType = reinterpret_cast<const NumberDataType*>(dataType);
+    for (auto& it : values) {
+      result_t ret = numType->checkValueRange(it.first);
+      if (ret != RESULT_OK) {
+        return ret;
+      }
+    }
+    fields->push_back(new ValueListDataField(useName, *attributes, numType, partType, m_length, values));
   } else {
     return RESULT_ERR_INVALID_ARG;
   }
